@@ -4,6 +4,7 @@ import HdModel.Model.SniDriver
 import HdModel.Model.SniffDriver
 import HdModel.Model.EyeballsDriver
 import HdModel.Model.TimeoutDriver
+import HdModel.Model.WireDriver
 /-! Line-protocol driver.  One case per line:
       `<stream> <input tokens…> | <implementation observation tokens…>`
     Output, one line per case:
@@ -22,6 +23,7 @@ def handle (line : String) : String :=
     | "sniff" :: rest => Sniff.driverLine rest obs
     | "eb" :: rest => Eyeballs.driverLine rest obs
     | "to" :: rest => Timeout.driverLine rest obs
+    | "wire" :: rest => Wire.driverLine rest obs
     | _ => (false, false, "unknown-stream", "")
   s!"{boolTok r.1} {boolTok r.2.1} {r.2.2.1} | {r.2.2.2}"
 
